@@ -469,8 +469,24 @@ class Interp(object):
     # ---------------------------------------------------------------- calls
     def call(self, modalias, qual, *args, **kwargs):
         m = self.modules[modalias]
+        m, qual = self.follow_alias(m, qual)
         fn = m.func(qual)
         return self.call_fn(m, fn, list(args), dict(kwargs))
+
+    def follow_alias(self, m, qual):
+        """module-level re-export  name = package.module.name2  of a function of another loaded module"""
+        for _ in range(3):
+            if qual in m.funcs or "." in qual:
+                break
+            tgt = m.aliases().get(qual)
+            if not tgt:
+                break
+            parts = tgt.split(".")
+            hit = [mm for k, mm in self.modules.items() if mm is not None and (k == parts[-2] if len(parts) > 1 else False)]
+            if not hit:
+                break
+            m, qual = hit[0], parts[-1]
+        return m, qual
 
     def call_fn(self, m, fn, args, kwargs):
         self.depth += 1
@@ -867,15 +883,19 @@ class Interp(object):
         raise Unsupported("expression %s at %s:%s" % (type(e).__name__, m.rel, getattr(e, "lineno", "?")))
 
     def comp(self, m, e, env):
-        if len(e.generators) != 1:
-            raise Unsupported("nested comprehension")
-        g = e.generators[0]
         out = []
-        env2 = dict(env)
-        for x in list(self.expr(m, g.iter, env)):
-            self.assign(m, g.target, x, env2)
-            if all(self.truth(m, c, env2) for c in g.ifs):
+
+        def rec(k, env2):
+            if k == len(e.generators):
                 out.append(self.expr(m, e.elt, env2))
+                return
+            g = e.generators[k]
+            for x in list(self.expr(m, g.iter, env2)):
+                env3 = dict(env2)
+                self.assign(m, g.target, x, env3)
+                if all(self.truth(m, c, env3) for c in g.ifs):
+                    rec(k + 1, env3)
+        rec(0, dict(env))
         return out
 
     def _truthy(self, v):
@@ -1222,6 +1242,20 @@ def default_policy(c, m, e):
     if c.op == "or":
         return any(default_policy(x, m, e) for x in c.a)
     raise Unsupported("branch on a symbolic inequality: %s (%s:%s)" % (c.text, m.rel, getattr(e, "lineno", "?")))
+
+
+def no_nan_policy(c, m, e):
+    """the general (no NaN anywhere) path: isnan(x) is false, structurally through not / and / or (so 'not (isnan(a) or isnan(b))'
+    is true); every other symbolic test follows the generic-position policy"""
+    if c.op == "not":
+        return not no_nan_policy(c.a, m, e)
+    if c.op == "and":
+        return all(no_nan_policy(x, m, e) for x in c.a)
+    if c.op == "or":
+        return any(no_nan_policy(x, m, e) for x in c.a)
+    if "isnan" in c.text:
+        return False
+    return default_policy(c, m, e)
 
 
 def _zerodiv():
